@@ -250,3 +250,16 @@ Proof.
     + pose proof (take_is_fresh f b0 cur b Hb Hcur) as Hfresh. cbn [take snd] in Hfresh. rewrite Hfresh in Hrest.
       eapply (IH [] b0 rest); [reflexivity|exact Hrest].
 Qed.
+
+(* a history with failing operations returns what the history of its successful operations returns *)
+Lemma lenient_is_strict_on_accepted ops : forall b, run_history b (accepted b ops) = Ok (run_lenient b ops).
+Proof.
+  induction ops as [|[v|] r IH]; intros b; cbn [accepted run_lenient].
+  - reflexivity.
+  - destruct (push v b) as [b'| |pp] eqn:E; [|apply IH|apply IH]. cbn [run_history]. rewrite E. cbn [bind]. apply IH.
+  - cbn [run_history]. rewrite IH. reflexivity.
+Qed.
+
+Theorem lenient_history_batches f b0 : build f = Some b0 ->
+  forall ops, Forall2 (fun batch out => one_shot b0 batch = Ok out) (batches [] (accepted b0 ops)) (run_lenient b0 ops).
+Proof. intros Hb ops. exact (history_batches f b0 Hb (accepted b0 ops) [] b0 (run_lenient b0 ops) eq_refl (lenient_is_strict_on_accepted ops b0)). Qed.
